@@ -25,13 +25,19 @@ Example shape_checked : failure_policy_shape_checked = true. Proof. reflexivity.
 Definition policy_outcome {M} (strict_arg : option bool) (env : option string) (passes : list (M -> M))
            (fail_at : option nat) (m : M) : option (outcome M) :=
   match resolve_strict strict_arg env with
-  | Some s => Some (with_policy M s passes fail_at m)
+  | Some s => Some (with_policy M failure_policy_restores_input s passes fail_at m)
   | None => None
   end.
 
 Theorem default_policy_never_raises {M} (passes : list (M -> M)) k (m : M) :
-  policy_outcome None None passes (Some k) m = Some (Returned M (run_prefix M passes k m)).
+  policy_outcome None None passes (Some k) m
+  = Some (Returned M (if failure_policy_restores_input then m else run_prefix M passes k m)).
 Proof. reflexivity. Qed.
+(* for the code whose policy restores the input (a named tie obligation says whether the current code does): a
+   non-fatal optimizer failure -- at a pass boundary or in the middle of a pass -- returns exactly the un-optimised model *)
+Theorem default_policy_returns_input {M} (passes : list (M -> M)) k (m : M) :
+  failure_policy_restores_input = true -> policy_outcome None None passes (Some k) m = Some (Returned M m).
+Proof. intro H. rewrite default_policy_never_raises. rewrite H. reflexivity. Qed.
 Theorem strict_policy_reraises {M} (passes : list (M -> M)) k (m : M) env :
   policy_outcome (Some true) env passes (Some k) m = Some (Reraised M).
 Proof. reflexivity. Qed.
